@@ -485,8 +485,14 @@ def run(ctx):
             res.cov["traces_validated_against_impl"] += st["executions"]
         res.cov["spaces"] = per
         res.cov["bound_completed"] = {
-            k: ("complete" if v["complete"] else "capped")
-            for k, v in per.items()}
+            sp.name: dict(
+                processes=sp.params["n"], protocol=sp.params["kind"],
+                preemptions=("unbounded (all interleavings)"
+                             if sp.preempt is None else sp.preempt),
+                crashes=sp.crashes, ethertypes=len(sp.params["eth"]),
+                slots=len(sp.params["slot"]),
+                completed=per[sp.name]["complete"])
+            for sp in spaces(ctx)}
         res.cov["simos_conformance"] = "passed"
         dom = domains(ctx.seed)
         res.cov["alphabet"] = dict(ethertypes=dom["eth"], slots=dom["slot"])
